@@ -156,6 +156,36 @@ Definition unflatten_model (period : nat) (missing : val) (vs : list val) : gen 
   (map fname (zrange period 0) :: unflatten_loop period missing [] vs, None).
 
 (* ---- pivot (aggregation from the zoo) ---------------------------------------------------------------------------------- *)
+(* itertools.groupby with RAW == on consecutive rows, keyed by the cell at position i (None when the row is too short) *)
+Definition rawkey (i : Z) (r : row) : val := match py_nth r i with Some v => v | None => VNone end.
+Fixpoint rawgroup (i : Z) (rows : list row) : list (val * list row) :=
+  match rows with
+  | [] => []
+  | r :: t => match rawgroup i t with
+              | (k, g) :: rest => if py_eq (rawkey i r) k then (rawkey i r, r :: g) :: rest
+                                  else (rawkey i r, [r]) :: (k, g) :: rest
+              | [] => [(rawkey i r, [r])]
+              end
+  end.
+
+(* one f2-group of an f1-group: its aggregate goes into the column of its f2 value *)
+Definition pivot_step (i3 : Z) (agg : Z) (f2vals : list val) (acc : res row) (g2 : val * list row) : res row :=
+  match acc with
+  | Err e => Err e
+  | Ok row =>
+      match all_some (map (fun r => py_nth r i3) (snd g2)), py_index (fst g2) f2vals with
+      | Some vals, Some j =>
+          match apply_agg agg true vals with
+          | Ok a => Ok (set_nth (Z.to_nat j) a row)
+          | Err e => Err e
+          end
+      | None, _ => Err IndexErr
+      | _, None => Err ValueErr
+      end
+  end.
+Definition pivot_cells (i3 : Z) (agg : Z) (missing : val) (f2vals : list val) (groups : list (val * list row)) : res row :=
+  fold_left (pivot_step i3 agg f2vals) groups (Ok (map (fun _ => missing) f2vals)).
+
 Definition pivot_model (f1 f2 f3 : val) (agg : Z) (missing : val) (presorted : bool) (bs : option nat) (t : table) : gen :=
   let src := if presorted then (t, None) else sort_model bs false (Some (VSeq false [f1; f2])) t in
   match src with
@@ -168,34 +198,12 @@ Definition pivot_model (f1 f2 f3 : val) (agg : Z) (missing : val) (presorted : b
           let outhdr := f1 :: f2vals in
           match py_index f1 flds, py_index f2 flds, py_index f3 flds with
           | Some i1, Some i2, Some i3 =>
-              let rawkey := fun (i : Z) (r : row) => match py_nth r i with Some v => v | None => VNone end in
-              (* itertools.groupby with RAW == on consecutive rows *)
-              let rawgroup := fix rg (i : Z) (rows : list row) : list (val * list row) :=
-                match rows with
-                | [] => []
-                | r :: t => match rg i t with
-                            | (k, g) :: rest => if py_eq (rawkey i r) k then (rawkey i r, r :: g) :: rest
-                                                else (rawkey i r, [r]) :: (k, g) :: rest
-                            | [] => [(rawkey i r, [r])]
-                            end
-                end in
               let '(out, e) :=
                 gen_map (fun g1 : val * list row =>
-                  let cells := fold_left (fun acc g2 =>
-                      match acc with
-                      | Err e => Err e
-                      | Ok row =>
-                          match all_some (map (fun r => py_nth r i3) (snd g2)), py_index (fst g2) f2vals with
-                          | Some vals, Some j =>
-                              match apply_agg agg true vals with
-                              | Ok a => Ok (set_nth (Z.to_nat j) a row)
-                              | Err e => Err e
-                              end
-                          | None, _ => Err IndexErr
-                          | _, None => Err ValueErr
-                          end
-                      end) (rawgroup i2 (snd g1)) (Ok (map (fun _ => missing) f2vals)) in
-                  match cells with Ok c => Ok (fst g1 :: c) | Err e => Err e end) (rawgroup i1 rows) in
+                  match pivot_cells i3 agg missing f2vals (rawgroup i2 (snd g1)) with
+                  | Ok c => Ok (fst g1 :: c)
+                  | Err e => Err e
+                  end) (rawgroup i1 rows) in
               (outhdr :: out, e)
           | _, _, _ => ([outhdr], Some ValueErr)
           end
